@@ -26,6 +26,7 @@ func checkC02(c *Ctx) {
 	c.Rule("C02/R10", "every other line reaches the recogniser: each path through one iteration of the scanning loop calls one of the three line parsers (benchmark, unit, key/value); no extra pre-test decides that a line cannot be configuration")
 	c.Rule("C02/R11", "malformed unit lines: a unit metadata field is recorded only on paths that established a non-empty key (text before '=')")
 	c.Rule("C02/R9", "measurements: each measurement is recorded under Tidy's unit with the pair as written kept alongside exactly when the unit was rewritten (string comparison of the units; same rule as C04/R1)")
+	c.Rule("C02/R14", "unit-metadata lines: a line reaches parseUnitLine only where its first field was compared, whole, with \"Unit\"; the loop over the line's key=value pairs is left only where a field's length was tested")
 	c.Rule("C02/R8", "file labels: in Files.init an input is counted towards 'same path given more than once' exactly when it carries no explicit label, which is exactly the set of inputs the disambiguation loop may relabel; a labelled input keeps the user's label")
 
 	c.Rule("C02/R13", "separator runs are consumed whole: no return of splitField's stripping loop is feasible while the text handed back begins with white space (six ASCII and three multi-byte samples; conditions on the first byte, the length and unicode.IsSpace answered from the sample)")
@@ -43,6 +44,7 @@ func checkC02(c *Ctx) {
 	c02Progress(c, p)
 	c02KeyStart(c, p, "C02/R12")
 	c02Strip(c, p)
+	c02UnitLines(c, p)
 	// R6: reuse the sibling rule
 	sub := newCtx(c.Prop, c.Tier)
 	sub.RepoDir, sub.VerifDir, sub.HomeDir = c.RepoDir, c.VerifDir, c.HomeDir
@@ -1297,4 +1299,119 @@ func c02Strip(c *Ctx, p *Prog) {
 		}
 	}
 	c.Floor(R, "returns of the separator-stripping loop", n, 2)
+}
+
+// c02UnitLines (C02/R14): (a) a unit-metadata line is recognised by its whole first field: wherever the reader decides
+// "this is a Unit line" (the recogniser's true return, or the block that calls parseUnitLine), bytes.Equal of a field
+// with the "Unit" literal is known true — a prefix test takes UnitTestX ok=1 for metadata; (b) every key=value pair of
+// the line is looked at: the loop over the pairs in parseUnitLine is left only where a field's length was tested
+// (the end of the line), never from the middle of handling a pair.
+func c02UnitLines(c *Ctx, p *Prog) {
+	const R = "C02/R14"
+	parse := p.Method("benchfmt", "Reader", "parseUnitLine")
+	if parse == nil {
+		c.Undecided(R, "anchor:parseUnitLine", "", "not found")
+		return
+	}
+	// (a)
+	isEqualUnit := func(b *ssa.BasicBlock) bool {
+		for _, f := range factsAt(b) {
+			call, ok := f.Cond.(*ssa.Call)
+			if !ok || !f.True || !objIs(calleeObj(&call.Call), "bytes", "", "Equal") {
+				continue
+			}
+			for _, a := range call.Call.Args {
+				if g, ok := loadAddr(a).(*ssa.Global); ok {
+					_ = g
+					return true
+				}
+				if s, ok := constString(stripConv(a)); ok && s == "Unit" {
+					return true
+				}
+			}
+		}
+		return false
+	}
+	n := 0
+	for _, fn := range p.Funcs("benchfmt") {
+		eachInstr(fn, func(b *ssa.BasicBlock, in ssa.Instruction) {
+			call, ok := in.(*ssa.Call)
+			if !ok || call.Call.StaticCallee() != parse {
+				return
+			}
+			n++
+			okHere := isEqualUnit(b)
+			// or decided by a recogniser: the call sits where the recogniser's ok result is true, and the recogniser
+			// returns true only under the equality
+			if !okHere {
+				for _, f := range factsAt(b) {
+					ex, isEx := f.Cond.(*ssa.Extract)
+					if !isEx || !f.True {
+						continue
+					}
+					rc, isCall := ex.Tuple.(*ssa.Call)
+					if !isCall || rc.Call.StaticCallee() == nil || rc.Call.StaticCallee().Blocks == nil {
+						continue
+					}
+					rec := rc.Call.StaticCallee()
+					all, any := true, false
+					for _, rb := range rec.Blocks {
+						ret, isRet := rb.Instrs[len(rb.Instrs)-1].(*ssa.Return)
+						if !isRet || ex.Index >= len(ret.Results) {
+							continue
+						}
+						if k, isK := retVal(ret, ex.Index).(*ssa.Const); isK && k.Value != nil && !constant.BoolVal(k.Value) {
+							continue
+						}
+						any = true
+						if !isEqualUnit(rb) {
+							all = false
+						}
+					}
+					if any && all {
+						okHere = true
+					}
+				}
+			}
+			c.Check(okHere, R, fmt.Sprintf("%s:unit-line-recognised#%d", fnName(fn), n), p.pos(call.Pos()), "a line is handed to the unit-metadata parser only where its first field equals \"Unit\"",
+				"a line reaches the unit-metadata parser without its first field having been compared, whole, with \"Unit\" (a prefix test or no test): a foreign line such as 'UnitTestX ok=1' or 'Unity build=release' then produces metadata records and errors, and can make a genuine later Unit line look like a conflict")
+		})
+	}
+	c.Floor(R, "calls of the unit-metadata parser", n, 1)
+	// (b)
+	nl := 0
+	for _, lp := range naturalLoops(parse) {
+		nl++
+		i := 0
+		for _, b := range parse.Blocks {
+			if !lp.Blocks[b] {
+				continue
+			}
+			for _, s := range b.Succs {
+				if lp.Blocks[s] {
+					continue
+				}
+				i++
+				okExit := false
+				if ifi, ok := b.Instrs[len(b.Instrs)-1].(*ssa.If); ok {
+					if bo, ok := ifi.Cond.(*ssa.BinOp); ok {
+						isLen := func(v ssa.Value) bool {
+							call, ok := v.(*ssa.Call)
+							if !ok {
+								return false
+							}
+							bi, ok := call.Call.Value.(*ssa.Builtin)
+							return ok && bi.Name() == "len"
+						}
+						if isLen(bo.X) || isLen(bo.Y) {
+							okExit = true
+						}
+					}
+				}
+				c.Check(okExit, R, fmt.Sprintf("parseUnitLine:pair-loop-exit#%d", i), p.pos(b.Instrs[len(b.Instrs)-1].Pos()), "the pair loop is left where a field's length was tested",
+					"the loop over the key=value pairs of a Unit line can be left from the middle of handling a pair (a return or break that does not depend on the line being exhausted): the pairs after it are silently dropped — 'Unit ns/op better=lower assume=exact' loses assume=exact when better=lower was already known")
+			}
+		}
+	}
+	c.Floor(R, "loops in the unit-metadata parser", nl, 1)
 }
